@@ -57,6 +57,13 @@ def contracts():
             && dur(d) <= sat_sub(crate::acme_common::crypto::cert_expires_ns(c), dur(self.renew_delay))
             && (dur(self.random_early_renew) == 0 ==> dur(d) == sat_sub(crate::acme_common::crypto::cert_expires_ns(c), dur(self.renew_delay)))
             && dur(d) + dur(self.random_early_renew) >= sat_sub(crate::acme_common::crypto::cert_expires_ns(c), dur(self.renew_delay)))), //@C06.never_late_never_negative
+        // a certificate that is there with its key and covers every configured identifier is not requested again before
+        // notAfter - renew_delay - random_early_renew: in particular a freshly issued one is not renewed at once
+        (path_ok(self.file_manager, FileType::PrivateKey) && old(w).fs.files.contains_key(file_path_spec(self.file_manager, FileType::PrivateKey))
+            && path_ok(self.file_manager, FileType::Certificate) && old(w).fs.files.contains_key(file_path_spec(self.file_manager, FileType::Certificate)))
+            ==> (r matches Ok(d) ==> (crate::acme_common::crypto::pem_cert(old(w).fs.files[file_path_spec(self.file_manager, FileType::Certificate)]) matches Some(c)
+                && (id_values(self.identifiers@).subset_of(crate::acme_common::crypto::cert_san(c))
+                    ==> dur(d) + dur(self.random_early_renew) >= sat_sub(crate::acme_common::crypto::cert_expires_ns(c), dur(self.renew_delay))))), //@C06.a_covering_certificate_is_not_renewed_before_it_is_due
 """, rewrites=[ZERO])
     # ---- C05 / C10 / C07: which configured entry solves an authorization, and the data handed to the hooks
     c["get_identifier_from_str"] = FnSpec(ret="r", sig="""
@@ -181,7 +188,7 @@ pub broadcast proof fn axiom_challenge_to_string(c: &Challenge, r: String)
     u.stub("acmed/src/storage.rs", "get_certificate", "storage", fns={"get_certificate": sc["get_certificate"]})
     u.module("certificate", "use crate::*;\nuse crate::acme_proto::Challenge;\nuse crate::hooks::{self, Hook, HookType};\n"
              "use crate::identifier::{Identifier, IdentifierType};\nuse crate::logs::HasLogger;\n"
-             "use crate::storage::{certificate_files_exists, get_certificate, FileManager, FileType, file_path_spec};\n"
+             "use crate::storage::{certificate_files_exists, get_certificate, FileManager, FileType, file_path_spec, path_ok};\n"
              "use crate::acme_common::crypto::{HashFunction, KeyType, SubjectAttribute, X509Certificate, strset};\n"
              "use crate::acme_common::error::Error;\nuse crate::rand::{thread_rng};\nuse crate::hooks::{ChallengeHookData, PostOperationHookData, HookEnvData};\nuse crate::venv::*;\n"
              "use std::collections::{HashMap, HashSet};\nuse std::time::Duration;")
@@ -203,8 +210,8 @@ pub broadcast proof fn axiom_challenge_to_string(c: &Challenge, r: String)
 
 # T-MAP idioms on environment maps (optional: applied wherever they occur)
 ENV_IDIOMS = [
-    ("T-MAP", r"(?P<a>\w+)\.extend\(\s*(?P<b>[\w\.]+?)\s*\.iter\(\)\s*\.map\(\|\(k, v\)\| \((?:k\.to_owned\(\), v\.to_owned\(\)|k\.clone\(\), v\.clone\(\)|k\.to_string\(\), v\.to_string\(\))\)\)\s*\)",
-     lambda m: f"crate::venv::extend_from(&mut {m.group('a')}, &{m.group('b')})", None),
+    ("T-MAP", r"(?P<a>\w+(?:\s*\.\s*\w+)*?)\s*\.extend\(\s*(?P<b>[\w\.]+?)\s*\.iter\(\)\s*\.map\(\|\(k, v\)\| \((?:k\.to_owned\(\), v\.to_owned\(\)|k\.clone\(\), v\.clone\(\)|k\.to_string\(\), v\.to_string\(\))\)\)\s*\)",
+     lambda m: f"crate::venv::extend_from(&mut {''.join(m.group('a').split())}, &{m.group('b')})", None),
     ("T-MAP", r"(?P<a>\w+)\.extend\((?P<b>[\w\.]+?)\.clone\(\)\)", lambda m: f"crate::venv::extend_from(&mut {m.group('a')}, &{m.group('b')})", None),
     ("T-MAP", r"(?P<b>(?:self|identifier|fm)\.env)\.clone\(\)", lambda m: f"crate::venv::clone_map(&{m.group('b')})", None),
 ]
@@ -250,6 +257,8 @@ pub fn call<L: HasLogger, T: HookEnvData>(logger: &L, hooks: &[Hook], data: &T, 
 
 STORAGE_SPEC = """
 pub uninterp spec fn file_path_spec(fm: FileManager, t: FileType) -> Seq<char>;
+// whether the file has a path at all (its name template renders): defined in unit storage
+pub uninterp spec fn path_ok(fm: FileManager, t: FileType) -> bool;
 """
 
 SPEC = """
